@@ -244,6 +244,70 @@ def check_invariant(IX, pt):
     return None
 
 
+# ---------------------------------------------------------------- typing guard
+# The statement quantifies over *well-typed* operands.  The generator types every dimension with an algebraic index type
+# and only combines variables whose types agree; but the library itself can produce, from well-typed operands, a pattern
+# that is not a pattern of that type (indexing a diagonal over a dense axis that stands for (1+1)x2 yields a one-hot
+# SumAxis(3, (), 0), i.e. the split 3+1 of the flattened index).  Combining that with a (1+1)x2 pattern is an index type
+# mismatch by the library's own discipline (it warns), hence outside the statement.  After every step each dimension of
+# the result is therefore checked against its declared type, and a dimension that does not conform gets a fresh opaque
+# type, so that it is only ever combined with values derived from itself.
+
+def _type_leaves(t, out):
+    if t[0] == 'prod':
+        _type_leaves(t[1], out)
+        _type_leaves(t[2], out)
+    else:
+        out.append(t)
+    return out
+
+
+def skeleton(IX, e):
+    if isinstance(e, IX.PhysicalAxis):
+        return 'P'
+    if isinstance(e, IX.ProductAxis):
+        return ['X'] + [skeleton(IX, f) for f in e.factors]
+    return ['S', e.before, e.after, skeleton(IX, e.term)]
+
+
+def conforms(IX, e, t):
+    """is the axis expression e a pattern of the algebraic index type t?  (a dense PhysicalAxis may stand for any subtree)"""
+    if isinstance(e, IX.PhysicalAxis):
+        return e.numel() == dt_numel(t)
+    if t[0] == 'atom':
+        return isinstance(e, IX.ProductAxis) and len(e.factors) == 0 and t[1] == 1
+    if t[0] == 'sum':
+        if not isinstance(e, IX.SumAxis):
+            return False
+        m1, m2 = t[1], t[2]
+        if e.before == 0 and e.after == m2:
+            return conforms(IX, e.term, ['atom', m1])
+        if e.before == m1 and e.after == 0:
+            return conforms(IX, e.term, ['atom', m2])
+        return False
+    if t[0] == 'prod':
+        leaves = _type_leaves(t, [])
+        factors = list(e.factors) if isinstance(e, IX.ProductAxis) else [e]
+        i = 0
+        for f in factors:
+            n = f.numel()
+            if isinstance(f, IX.PhysicalAxis):
+                prod = 1
+                while i < len(leaves) and prod < n:
+                    prod *= dt_numel(leaves[i])
+                    i += 1
+                if prod != n:
+                    return False
+            else:
+                while i < len(leaves) and dt_numel(leaves[i]) == 1 and n != 1:
+                    i += 1
+                if i >= len(leaves) or not conforms(IX, f, leaves[i]):
+                    return False
+                i += 1
+        return all(dt_numel(l) == 1 for l in leaves[i:])
+    return True       # opaque: handled by the skeleton table of the machine
+
+
 # ---------------------------------------------------------------- the machine
 
 class Var:
@@ -253,12 +317,23 @@ class Var:
         self.pt, self.model, self.sig, self.alias, self.live = pt, model, sig, alias, True
 
 
-def same(a, b, exact=True):
+def same(a, b, exact=True, atol=1e-300):
     if tuple(a.shape) != tuple(b.shape) or a.dtype != b.dtype:
         return False
     if a.dtype == torch.bool or exact:
         return bool(torch.equal(a, b)) if not a.dtype.is_floating_point else bool(torch.allclose(a, b, rtol=0, atol=0, equal_nan=True))
-    return bool(torch.allclose(a, b, rtol=1e-12, atol=1e-300, equal_nan=True))
+    return bool(torch.allclose(a, b, rtol=1e-12, atol=atol, equal_nan=True))
+
+
+def abs_slack(*models):
+    """absolute rounding slack for results that are differences of larger quantities (x - logsumexp(x), max + log1p(..)):
+    a few ulps of the largest finite operand magnitude"""
+    m = 1.0
+    for t in models:
+        f = t[torch.isfinite(t)]
+        if f.numel():
+            m = max(m, float(f.abs().max()))
+    return 16 * 2.220446049250313e-16 * m
 
 
 def same_div(got, want, divisor_zero):
@@ -285,6 +360,7 @@ class Machine:
         self.nops = 0
         self.nonDense = False
         self.tok = 0
+        self.skel = {}           # opaque token -> structural skeleton of the axis it was introduced with
 
     def opaque(self, n):
         self.tok += 1
@@ -346,7 +422,7 @@ class Machine:
                 w.live = False
                 self.c.inc('probe.alias-retired')
 
-    def result(self, opname, pt, model, sig, alias=None, exact=True):
+    def result(self, opname, pt, model, sig, alias=None, exact=True, atol=1e-300):
         if not isinstance(pt, self.IX.PatternedTensor):
             V('result-type', [opname], f'{opname} returned {type(pt).__name__}')
         bad = check_invariant(self.IX, pt)
@@ -357,15 +433,38 @@ class Machine:
             V('shape', [opname], f'{opname}: shape {tuple(pt.shape)} expected {tuple(model.shape)}')
         if d.dtype != model.dtype:
             V('dtype', [opname], f'{opname}: dtype {d.dtype} expected {model.dtype}')
-        if not same(d, model, exact):
+        if not same(d, model, exact, atol):
             V('denotation', [opname], f'{opname}: result denotes {d.tolist()} but torch gives {model.tolist()}')
         if not exact:
             model = d.clone()       # within the 1-ulp slack of a transcendental map: track the value actually produced
+        sig = self.retype(pt, sig, opname)
         v = self.add(pt, model, sig, alias)
         if model.dtype.is_floating_point and bool(torch.isnan(model).any()):
             v.live = False          # NaN results are checked once (equal_nan) and not fed into further operations
             self.c.inc('probe.nan-result-retired')
         return v
+
+    def retype(self, pt, sig, opname):
+        """typing guard (see above): a dimension whose pattern is not a pattern of its declared type becomes opaque"""
+        sig = list(sig)
+        for i, (e, t) in enumerate(zip(pt.vaxes, sig)):
+            if t[0] == 'opaque':
+                sk = skeleton(self.IX, e)
+                reg = self.skel.setdefault(t[2], sk if sk != 'P' else None)
+                if sk == 'P' or sk == ['X']:
+                    continue
+                if reg is None:
+                    self.skel[t[2]] = sk
+                elif reg != sk:
+                    sig[i] = self.opaque(t[1])
+                    self.skel[sig[i][2]] = sk
+                    self.c.inc('probe.retyped-opaque')
+            elif not conforms(self.IX, e, t):
+                sig[i] = self.opaque(dt_numel(t))
+                self.skel[sig[i][2]] = skeleton(self.IX, e)
+                self.c.inc('probe.retyped-nonconforming')
+                self.c.inc('probe.retyped-nonconforming.' + opname)
+        return sig
 
     # ---- one step
     def step(self, op):
@@ -379,11 +478,17 @@ class Machine:
             elif name in UNARY:
                 fn = lambda a_, n=name: self.unary(n, a_)
         self.built = []
+        pending = None
         with recorded_warnings() as ws:
-            r = fn(a)
+            try:
+                r = fn(a)
+            except Violation as v_:
+                pending = v_
         for w in ws:
             if 'index type mismatch' in str(w.message) and (name in BINARY or name in BINARY_BOOL or name in ('imul_t', 'itruediv_t', 'stack')):
                 raise RuntimeError('generator produced ill-typed operands for ' + name)
+        if pending is not None:
+            raise pending
         if r is None:
             return
         self.nops += 1
@@ -446,7 +551,7 @@ class Machine:
             if not same_div(d, m, y.model == 0):
                 V('denotation', [name], f'{name}: result denotes {d.tolist()} but torch gives {m.tolist()}')
             m = d.clone()
-        self.result(name, r, m, x.sig, exact=name not in ('logaddexp', 'div'))
+        self.result(name, r, m, x.sig, exact=name not in ('logaddexp', 'div'), atol=abs_slack(x.model, y.model) if name == 'logaddexp' else 1e-300)
         return name
 
     def scalar(self, name, a):
@@ -591,7 +696,7 @@ class Machine:
         if x is None:
             return None
         d = a[1] % x.model.ndim
-        self.result('log_softmax', x.pt.log_softmax(d), x.model.log_softmax(d), x.sig, exact=False)
+        self.result('log_softmax', x.pt.log_softmax(d), x.model.log_softmax(d), x.sig, exact=False, atol=abs_slack(x.model))
         return 'log_softmax'
 
     def op_norm(self, a):
@@ -635,7 +740,11 @@ class Machine:
             return None
         got = x.pt.tolist()
         want = x.model.tolist()
-        if json.dumps(got) != json.dumps(want):
+        def eq(x_, y_):
+            if isinstance(x_, list) or isinstance(y_, list):
+                return isinstance(x_, list) and isinstance(y_, list) and len(x_) == len(y_) and all(eq(p_, q_) for p_, q_ in zip(x_, y_))
+            return isinstance(x_, bool) == isinstance(y_, bool) and (x_ == y_ or (x_ != x_ and y_ != y_))
+        if not eq(got, want):
             V('tolist', [], f'{got} vs {want}')
         return 'tolist'
 
